@@ -11,6 +11,7 @@ pub fn cfg() -> GenCfg {
     c.canvas_typ = 10;
     c.max_cel = 6;
     c.tile_aligned = false;
+    c.scale = false; // per-position / per-offset enumeration: keep the files small
     c
 }
 
